@@ -19,6 +19,6 @@ Your task: make ONE small, realistic source change (the kind of regression a dev
 
 Do not touch anything guarded by the cargo feature `verif-hooks` and do not change Cargo.toml files.
 
-Then write a demonstration that FAILS with your change and PASSES without it: a new standalone Rust integration test file placed at {wt}/demo/demo_test.rs (NOT under crates/*/tests) together with a shell script {wt}/demo/run.sh that copies it into the appropriate crate's tests/ directory temporarily, runs just that test with `cargo test --offline`, removes the copy again, and exits non-zero iff the demonstration test fails. Verify both directions yourself: run demo/run.sh with your change applied (must fail), then `git stash` your source change (keep demo/), run demo/run.sh again (must pass), then `git stash pop`.
+Then write a demonstration that FAILS with your change and PASSES without it: a new standalone Rust integration test file placed at {wt}/demo/demo_test.rs (NOT under crates/*/tests) together with a shell script {wt}/demo/run.sh that copies it into the appropriate crate's tests/ directory temporarily, runs just that test with `cargo test --offline`, removes the copy again, and exits non-zero iff the demonstration test fails. Verify both directions yourself: run demo/run.sh with your change applied (must fail), then save your source change with `git -C {wt} diff -- crates > {wt}/demo/patch.diff` and revert it with `git -C {wt} checkout -- crates` (keep demo/), run demo/run.sh again (must pass), then re-apply with `git -C {wt} apply demo/patch.diff`. NEVER use `git stash` (the stash is shared with other worktrees of this repository).
 
 Finally produce {wt}/demo/patch.diff with `git -C {wt} diff -- crates > {wt}/demo/patch.diff` (source change only, no demo files) and {wt}/demo/NOTES.md explaining: what you changed, why the existing tests do not notice, and exactly what is needed for the breakage to manifest. Leave the worktree with your change applied. Keep build output inside {wt}/target. Report back a short summary (files changed, what manifests the bug, and the results of the two demo runs and of the full test suite).""")
